@@ -412,7 +412,7 @@ ADDENDA = {
            "(str, bytes, streams, path, file: URL; with and without data "
            "behind END); a third of the cases build the plain and the "
            "customised parser around one grammar object, in either order. "
-           "A quantity class that refuses some units: the load may fail, it may not return. One class handed over for several container roles.",
+           "A quantity class that refuses some units: the load may fail, it may not return. One class handed over for several container roles; a refusing quantity class behind a parameter without a value.",
     "C19": "Also the same optional loader arguments on both sides (15 "
            "grammar=/decoder= configurations, fresh objects per side, "
            "interleaved in one process). "
